@@ -580,6 +580,52 @@ Definition accounted_b (pf : propfind) (p : props) (r : response) : bool :=
   | FNone => false
   end.
 
+(** ** Open accounting (the file server)
+
+    The statement asks that every REQUESTED property is accounted for, that
+    allprop / propname answer with the properties the resource defines, and that
+    Depth is respected; it does not fix WHICH live properties the file server
+    defines.  For the file server the verdict therefore reads the model's
+    property set as "at least these": allprop / propname must hold every property
+    of the model's set as the model reports it, and may hold more (each once,
+    under 200); a requested name outside the model's set may come back 404 empty
+    or 200; every name occurs at most once; nothing unrequested is answered. *)
+Definition fe_name (e : fentry) : name := fst (fst e).
+Definition fe_status (e : fentry) : N := snd (fst e).
+
+Fixpoint nodup_names (l : list name) : bool :=
+  match l with
+  | [] => true
+  | x :: r => negb (mem_name x r) && nodup_names r
+  end.
+
+Definition mem_fentry (e : fentry) (l : list fentry) : bool := existsb (fentry_eqb e) l.
+
+Definition accounted_open_b (pf : propfind) (p : props) (r : response) : bool :=
+  let F := map (proj wire) (flat r) in
+  let av := available p in
+  grouped_b (r_propstats r) && nodup_names (map fe_name F) &&
+  match form_of pf with
+  | FProp names =>
+    perm_b name_eqb (map fe_name F) (dedupe [] names)
+    && forallb (fun e =>
+                  if has_name (fe_name e) av
+                  then fentry_eqb e (proj wire (report_name av (fe_name e)))
+                  else (N.eqb (fe_status e) 404 && match snd e with None => true | Some _ => false end)
+                       || N.eqb (fe_status e) 200) F
+  | FPropname =>
+    forallb (fun nf => mem_fentry (fst nf, 200%N, None) F) av
+    && forallb (fun e => N.eqb (fe_status e) 200 && match snd e with None => true | Some _ => false end) F
+  | FAllprop =>
+    forallb (fun nf => mem_fentry (proj wire (report_value (fst nf) (snd nf))) F) av
+    && forallb (fun e => has_name (fe_name e) av || N.eqb (fe_status e) 200) F
+  | FNone => false
+  end.
+
+(** the file server's verdict: the exact accounting, or the open one *)
+Definition accounted_dav_b (pf : propfind) (p : props) (r : response) : bool :=
+  accounted_b pf p r || accounted_open_b pf p r.
+
 (** two responses are the same answer: same href (for the file server, whose
     spelling of hrefs is C05's business: an href naming the same resource), same
     entries up to order, grouped by status (values through [wire]) *)
@@ -645,7 +691,8 @@ Definition is_infcase (dh : depth_hdr) : bool := match dh with DHInfCase => true
 (** [expected]: the in-scope resources in answer order, each with the href
     identifying it (as path segments) and its properties; [None] when the
     addressed resource is not exposed (then any refusal, or an empty answer, is fine). *)
-Definition spec_answer (ct : ctype) (bd : body) (dh : depth_hdr)
+Definition spec_answer_gen (acc : propfind -> props -> response -> bool)
+           (ct : ctype) (bd : body) (dh : depth_hdr)
            (expected : depth -> option (list (list string * props)))
            (o : observation) : bool :=
   (if N.eqb (ob_status o) 207 then ob_strict o else true) &&
@@ -660,7 +707,7 @@ Definition spec_answer (ct : ctype) (bd : body) (dh : depth_hdr)
       | None => negb (N.eqb (ob_status o) 207) || match ob_responses o with [] => true | _ => false end
       | Some l =>
         N.eqb (ob_status o) 207
-        && all2 (fun e r => list_eqb String.eqb (rid (r_href r)) (fst e) && accounted_b pf (snd e) r)
+        && all2 (fun e r => list_eqb String.eqb (rid (r_href r)) (fst e) && acc pf (snd e) r)
                 l (ob_responses o)
       end
     else
@@ -671,18 +718,20 @@ Definition spec_answer (ct : ctype) (bd : body) (dh : depth_hdr)
       | None => negb (N.eqb (ob_status o) 207) || match ob_responses o with [] => true | _ => false end
       | Some l =>
         N.eqb (ob_status o) 207
-        && all2 (fun e r => list_eqb String.eqb (rid (r_href r)) (fst e) && accounted_b pf (snd e) r)
+        && all2 (fun e r => list_eqb String.eqb (rid (r_href r)) (fst e) && acc pf (snd e) r)
                 l (ob_responses o)
       end
     end
   end.
+
+Definition spec_answer := spec_answer_gen accounted_b.
 
 (** ** per server *)
 
 Definition dav_model (t : node) (path : string) ct bd dh : res (list response) := dav_propfind t path ct bd dh.
 
 Definition dav_spec (t : node) (target : list string) ct bd dh (o : observation) : bool :=
-  spec_answer ct bd dh
+  spec_answer_gen accounted_dav_b ct bd dh
     (fun d => match get t target with
               | None => None
               | Some _ => Some (map (fun pn => (fst pn, file_props (snd pn))) (dav_expected t d target))
